@@ -184,6 +184,7 @@ func (o *Orch) runShard(sh int) {
 		if race {
 			cmd.Env = append(cmd.Env, "GORACE=halt_on_error=0 history_size=3 log_path="+filepath.Join(o.RunDir, fmt.Sprintf("race.%02d", sh)))
 		}
+		shardStart := time.Now()
 		if err := cmd.Start(); err != nil {
 			o.AddBroken("cannot start child: " + err.Error())
 			_ = ef.Close()
@@ -206,6 +207,9 @@ func (o *Orch) runShard(sh int) {
 			}
 		}
 		_ = ef.Close()
+		o.mu.Lock()
+		o.Counters[fmt.Sprintf("shard_wall_ms_max")] = maxI64(o.Counters["shard_wall_ms_max"], int64(time.Since(shardStart)/time.Millisecond))
+		o.mu.Unlock()
 		complete, lastCase, lastIdx := o.parseOut(out, sh)
 		o.hashFiles = appendLocked(&o.mu, o.hashFiles, out+".hashes")
 		if complete {
@@ -706,4 +710,11 @@ func replay(file string) int {
 	}
 	fmt.Println("violation did not reproduce")
 	return 0
+}
+
+func maxI64(a, b int64) int64 {
+	if a > b {
+		return a
+	}
+	return b
 }
